@@ -9,6 +9,7 @@ import (
 	"io"
 	"runtime"
 	"strconv"
+	"strings"
 	"sync"
 	"testing"
 	"time"
@@ -248,12 +249,14 @@ func runCase(c c11Case) (f *vh.Failure) {
 		var eeds []rc.EED // non-info, in order
 		var eedPos []int  // index in model of each
 		var members []rc.EnvMember
+		sizeAnnounced := false
 		for _, p := range r.Pkgs {
 			if p.Env != nil {
 				members = append(members, p.Env.Members...)
 				for _, m := range p.Env.Members {
 					if m.Type == rc.EnvPackSize {
 						packetSize, _ = strconv.Atoi(m.New)
+						sizeAnnounced = true
 					}
 				}
 			}
@@ -320,6 +323,37 @@ func runCase(c c11Case) (f *vh.Failure) {
 		// 4. packet size
 		if conn.PacketSize() != packetSize {
 			return vh.Failf("C11/packet-size", "%s: PacketSize() = %d, last announced %d", where, conn.PacketSize(), packetSize)
+		}
+		// 4b. ... and it is the size this channel (which existed before the announcement) sends
+		// with from now on: a request longer than one packet goes out in full packets of that size
+		if sizeAnnounced {
+			off := pipe.WrittenLen()
+			cmd := strings.Repeat("q", packetSize+17)
+			sctx, scancel := context.WithTimeout(bg, 20*time.Second)
+			err := ch.SendPackage(sctx, &tds.LanguagePackage{Cmd: cmd})
+			scancel()
+			if err != nil {
+				return vh.Failf("C11/packet-size-not-used-for-sending", "%s: SendPackage of a %d byte request after the announcement of packet size %d: %v", where, len(cmd)+6, packetSize, err)
+			}
+			ps, err := rc.ParsePackets(pipe.Written()[off:])
+			if err != nil {
+				return vh.Failf("C11/packet-size-not-used-for-sending", "%s: request written after the announcement of packet size %d is not a sequence of packets: %v", where, packetSize, err)
+			}
+			total := 0
+			for i, p := range ps {
+				total += len(p.Body)
+				lastP := i == len(ps)-1
+				if !lastP && (len(p.Body)+8 != packetSize || p.Status&rc.StatEOM != 0) {
+					return vh.Failf("C11/packet-size-not-used-for-sending", "%s: packet size %d announced, then a request of %d bytes sent on the channel: packet %d of %d has %d bytes and status %#x", where, packetSize, len(cmd)+6, i+1, len(ps), len(p.Body)+8, p.Status)
+				}
+				if lastP && (len(p.Body)+8 > packetSize || p.Status&rc.StatEOM == 0) {
+					return vh.Failf("C11/packet-size-not-used-for-sending", "%s: packet size %d announced, then a request of %d bytes sent on the channel: last packet has %d bytes and status %#x", where, packetSize, len(cmd)+6, len(p.Body)+8, p.Status)
+				}
+			}
+			if total != len(cmd)+6 {
+				return vh.Failf("C11/packet-size-not-used-for-sending", "%s: request of %d bytes sent after the announcement of packet size %d: %d body bytes written", where, len(cmd)+6, packetSize, total)
+			}
+			vh.Label("request-sent-after-packet-size-announcement")
 		}
 		// 5. consumer view and ordering
 		var got []event
